@@ -42,6 +42,11 @@ pub fn args_map(args: &[String]) -> HashMap<String, String> {
     m
 }
 
+/// Root of the verification tree (a `vp run` snapshot sets VERIF_HOME to its own copy).
+pub fn home() -> String {
+    std::env::var("VERIF_HOME").unwrap_or_else(|_| "/verif".to_string())
+}
+
 pub fn silence_panics() {
     std::panic::set_hook(Box::new(|_| {}));
 }
